@@ -91,6 +91,11 @@ fn generate(cli: &Cli) -> Vec<Case> {
             // duplicates (same address, other identifier)
             ts[1].address = ts[0].address;
         }
+        if nt >= 2 && rng.chance(1, 5) {
+            // the same identifier twice in a row (e.g. one server listed under two addresses)
+            let k = rng.usize_below(nt - 1);
+            ts[k + 1].identifier = ts[k].identifier.clone();
+        }
         let discovery = if rng.chance(1, 12) { None } else { Some(ts.clone()) };
         let (filter, fname) = match rng.below(7) {
             0 | 1 => (FilterScript::Identity, "identity"),
